@@ -65,7 +65,21 @@ func dialect(s solverSpec, q string) string {
 
 // runSolvers races the solvers on one query. needAll makes it wait for every solver
 // (thorough tier: agreement of independent back ends is recorded).
+// lightSolvers: cover (reachability / vacuity) checks are informational -- a `sat` confirms that a
+// return or a precondition is reachable, an `unsat` is what matters and comes quickly -- so they
+// are raced on two back ends only; most of a run's CPU time used to go into covers that stay
+// inconclusive on all four.
+
+func runSolversLight(query string, file string, timeout time.Duration, seed int) SolverResult {
+	saved := solvers
+	return runSolversOn([]solverSpec{saved[0], saved[2]}, query, file, timeout, false, nil, false, seed)
+}
+
 func runSolvers(query string, file string, timeout time.Duration, wantModel bool, modelTerms []string, needAll bool, seed int) SolverResult {
+	return runSolversOn(solvers, query, file, timeout, wantModel, modelTerms, needAll, seed)
+}
+
+func runSolversOn(solvers []solverSpec, query string, file string, timeout time.Duration, wantModel bool, modelTerms []string, needAll bool, seed int) SolverResult {
 	if err := os.WriteFile(file, []byte(query), 0o644); err != nil {
 		return SolverResult{Status: "error", Output: err.Error()}
 	}
